@@ -746,6 +746,8 @@ class Prims:
         for a in node.args:
             if isinstance(a, ast.Starred):
                 v = self.eval1(ex, a.value, st)
+                if type(v).__name__ == "ZipIter" and v.concrete_len() is not None:
+                    v = v.concrete_items()
                 if not isinstance(v, (list, tuple)):
                     raise Unsupported("star-args of a symbolic sequence")
                 args.extend(v)
